@@ -51,6 +51,12 @@ WORDS = {
 }
 
 
+ABBR = {"year": (["yr"], []), "month": (["mo"], []), "week": (["wk"], []), "hour": (["hr"], ["hrs"]),
+        "minute": (["min"], ["mins"]), "second": (["sec"], ["secs"])}
+NUMBER_WORDS = {"1": ["a", "an", "one"], "2": ["two"], "3": ["three"], "4": ["four"], "5": ["five"], "6": ["six"], "7": ["seven"],
+                "8": ["eight"], "9": ["nine"], "10": ["ten"], "11": ["eleven"], "12": ["twelve"]}
+
+
 def shards(tier, seed):
     k = 14
     out = [{"part": "explicit", "i": i, "n": N_CASES[tier] // k} for i in range(k)]
@@ -105,6 +111,22 @@ def gen_case(rnd):
                 n = rnd.choice(COUNTS) if rnd.random() < 0.7 else rnd.randrange(5001)
             parts.append([str(n), u])
         case["parts"] = parts
+        if rnd.random() < 0.15 and not any("," in str(n) for n, u in parts):
+            # (a decimal comma is claimed only with the full unit names of the vocabulary's own pattern)
+            # other listed spellings: abbreviated units (multi-letter ones of the English data) and worded counts
+            # ('a', 'an', 'one' ... 'twelve'), alone or mixed with digits in one phrase
+            sp = []
+            for n, u in parts:
+                un = plural(n, u)
+                if u in ABBR and rnd.random() < 0.6:
+                    un = rnd.choice(ABBR[u][1] if n not in (1, "1") and ABBR[u][1] else ABBR[u][0])
+                nn = n
+                if n in NUMBER_WORDS and rnd.random() < 0.6:
+                    nn = rnd.choice(NUMBER_WORDS[n])
+                    if nn in ("a", "an"):
+                        nn = "an" if un[0] in "aeiou" or un.startswith("h") else "a"
+                sp.append("%s %s" % (nn, un))
+            case["spelled"] = sp
         case["form"] = rnd.choice(["ago", "in", "ago", "in", "bare"])
         case["joiner"] = rnd.choice([", ", " ", " and "])
         if case["form"] == "bare":
@@ -126,7 +148,7 @@ def phrase_of(case):
         parts = [(n, u) for n, u in parts]
     else:
         parts = [(n, u) for n, u in case["parts"]]
-        body = case["joiner"].join("%s %s" % (n, plural(n, u)) for n, u in parts)
+        body = case["joiner"].join(case.get("spelled") or ["%s %s" % (n, plural(n, u)) for n, u in parts])
         if case["form"] == "ago":
             body, sign = body + " ago", -1
         elif case["form"] == "in":
